@@ -29,6 +29,8 @@ class RefCurve:
             self.verts = np.array([[0, 0], [math.pi, 0], [math.pi, math.pi], [0, math.pi], [0, 0]], float)
         elif name == "LShape":
             self.verts = np.array([[0, 0], [0, -1], [1, -1], [1, 1], [-1, 1], [-1, 0], [0, 0]], float)
+        elif name == "ThinRect":          # 1 x 1/16 rectangle: far along the curve, near in the plane
+            self.verts = np.array([[0, 0], [1, 0], [1, 0.0625], [0, 0.0625], [0, 0]], float)
         elif name == "UnitInterval":
             self.verts = np.array([[0, 0], [1, 0]], float)
         elif name == "Circle":
